@@ -323,4 +323,60 @@ theorem results_unaffected_by_added_commands (sem : Sem Val) (p p' : Program) (r
   · intro k c _ hc d hd
     exact hinside k c hc d hd
 
+/-! ### "any data result may feed any data input of compatible fuzziness" -/
+
+/-- **composability.**  A data input (a reference parameter asking for data, with or without a fuzziness requirement - directly or as an item of a list)
+accepts the name of every command of the program that declares a data output and whose fuzziness is compatible: before that command has run
+(its declaration is checked) and after it has run and holds an array (its result is checked).  Nothing else about the producer matters -
+which command it is, where it stands in the file, who else consumes it. -/
+theorem data_feeds_data (ctx : Ctx) (fz : Option Bool) (s : String) (info : CmdInfo)
+    (hl : ctx.lookup s = some info) (hout : info.output = some .data)
+    (hfz : fz = none ∨ fz = some info.isFuzzy) (hres : info.finished = true → info.resultKind = .array) :
+    clean ctx (.result (some .data) fz) (.str s) = .ok (.cmd s) := by
+  unfold clean
+  have h1 : ¬ (fz == some true && !info.isFuzzy) = true := by
+    rcases hfz with rfl | rfl
+    · simp
+    · cases info.isFuzzy <;> simp
+  have h2 : ¬ (fz == some false && info.isFuzzy) = true := by
+    rcases hfz with rfl | rfl
+    · simp
+    · cases info.isFuzzy <;> simp
+  simp only [hl, Option.isSome_some, if_true]
+  rw [if_neg h1, if_neg h2]
+  cases hfin : info.finished with
+  | true =>
+    have := hres hfin
+    simp [this]
+    decide
+  | false =>
+    simp [hout, PClass.acceptsOutput, PClass.isStringClass, PClass.subclassOf]
+    intro _ _; decide
+
+/-- ... and an input that demands the other fuzziness refuses it with the specific error, whatever else holds -/
+theorem data_wrong_fuzziness (ctx : Ctx) (ot : Option PClass) (s : String) (info : CmdInfo) (hl : ctx.lookup s = some info) :
+    (info.isFuzzy = false → clean ctx (.result ot (some true)) (.str s) = .error "ResultNotFuzzy") ∧
+    (info.isFuzzy = true → clean ctx (.result ot (some false)) (.str s) = .error "ResultIsFuzzy") := by
+  constructor <;> intro h <;> unfold clean <;> simp [hl, h]
+
+/-- a list of such names is accepted item by item -/
+theorem data_list_feeds (ctx : Ctx) (fz : Option Bool) : ∀ (names : List String),
+    (∀ s ∈ names, ∃ info, ctx.lookup s = some info ∧ info.output = some .data ∧ (fz = none ∨ fz = some info.isFuzzy) ∧
+      (info.finished = true → info.resultKind = .array)) →
+    clean ctx (.list (.result (some .data) fz)) (.list (names.map Raw.str)) = .ok (.list (names.map Clean.cmd)) := by
+  intro names h
+  have key : ∀ (ns : List String), (∀ s ∈ ns, s ∈ names) →
+      cleanList ctx (.result (some .data) fz) (ns.map Raw.str) = .ok (ns.map Clean.cmd) := by
+    intro ns
+    induction ns with
+    | nil => intro _; simp [cleanList]
+    | cons n rest ih =>
+      intro hsub
+      obtain ⟨info, hl, hout, hfz, hres⟩ := h n (hsub n List.mem_cons_self)
+      simp only [List.map_cons, cleanList]
+      rw [data_feeds_data ctx fz n info hl hout hfz hres]
+      simp only [ih (fun s hs => hsub s (List.mem_cons_of_mem _ hs))]
+  unfold clean
+  simp only [key names (fun s hs => hs), Except.map]
+
 end MPilot.C02
